@@ -340,6 +340,8 @@ class Interp(object):
             raise Unsupported("augassign target", st)
 
     def aug(self, op, cur, val, node):
+        if isinstance(cur, Model) and hasattr(cur, "iadd") and isinstance(op, ast.Add):
+            return cur.iadd(self, val, node)
         if isinstance(cur, PyList) and isinstance(op, ast.Add):
             self.list_extend(cur, val, node)
             return cur
@@ -584,6 +586,7 @@ class Interp(object):
                     ctx.assume(_b(eqn), definitional=True)
             self.assign(st.target, seq.get(k), env)
             w0 = len(ctx.writes)
+            pre_locals = dict(env.locals)
             try:
                 self.exec_block(st.body, env)
             except _Continue:
@@ -592,6 +595,12 @@ class Interp(object):
                 self.check_loop_writes(w0, allowed, fq, ordinal, st)
                 return
             self.check_loop_writes(w0, allowed, fq, ordinal, st)
+            if spec.check is not None:
+                for item in spec.check(View(env.locals, f=frame, n=n, seq=seq, pre=View(pre_locals)), k):
+                    cname, goal = item[0], item[1]
+                    using = [_b(h) for h in item[2]] if len(item) > 2 else None
+                    ctx.oblige("%s/%s" % (fq, cname), _b(goal), {"line": st.lineno, "props": list(getattr(spec, "check_props", ()))},
+                               kind="post", assume_after=True, using=using)
             ctx.oblige(lname + ".inv-preserved", _b(inv(k + 1)), {"line": st.lineno}, kind="loop")
             raise PathEnd()
         ctx.assume(_b(inv(n)))
@@ -1490,6 +1499,31 @@ def _bi_abs(interp, args, kwargs, node):
     return z3.If(v >= 0, v, -v)
 
 
+def _bi_minmax(is_max):
+    def fn(interp, args, kwargs, node):
+        vals = [interp.num(a, node) for a in (args if len(args) > 1 else interp.as_concrete_items(args[0], node))]
+        cur = vals[0]
+        for v in vals[1:]:
+            if conc_number(cur) and conc_number(v):
+                cur = max(cur, v) if is_max else min(cur, v)
+            else:
+                c = _cmp(v, cur, (lambda p, q: p > q) if is_max else (lambda p, q: p < q))
+                a, b = v, cur
+                if ops.is_sym(a) and ops.is_sym(b) and z3.is_int(a) != z3.is_int(b):
+                    a, b = to_real(a), to_real(b)
+                elif not ops.is_sym(a):
+                    a = z3.IntVal(a) if isinstance(a, int) and ops.is_sym(b) and z3.is_int(b) else to_real(a)
+                    if z3.is_real(a) and z3.is_int(b):
+                        b = to_real(b)
+                elif not ops.is_sym(b):
+                    b = z3.IntVal(b) if isinstance(b, int) and z3.is_int(a) else to_real(b)
+                    if z3.is_real(b) and z3.is_int(a):
+                        a = to_real(a)
+                cur = z3.If(c, a, b)
+        return cur
+    return fn
+
+
 def _bi_str(interp, args, kwargs, node):
     v = args[0]
     if is_strlike(v):
@@ -1577,6 +1611,8 @@ BUILTINS = {
     "type": _Builtin("type", _bi_type),
     "bytearray": _Builtin("bytearray", _bi_bytearray),
     "sorted": _Builtin("sorted", _bi_sorted),
+    "max": _Builtin("max", _bi_minmax(True)),
+    "min": _Builtin("min", _bi_minmax(False)),
     "object": ExtClass("object"),
     "True": True, "False": False, "None": None,
 }
